@@ -1,5 +1,7 @@
 //! C15 — only authorised parties can perform privileged actions: the complete
-//! (contract x privileged message x sender role x ownership state x funds) matrix, executed.
+//! (contract x privileged message x sender role x ownership state x funds) matrix, executed on
+//! forks of many prepared states (position open / closed / unlocked; farm running / not started /
+//! ended / expired; overlapping roles; the farm manager's pool-manager delegate re-configured).
 
 use std::collections::BTreeSet;
 
@@ -25,27 +27,101 @@ use crate::RunCfg;
 enum Who {
     Owner,
     Pending,
+    OldPending,
     Former,
     FarmOwner,
     PositionOwner,
     PoolManager,
+    /// the account the farm manager's configuration names as pool manager (when re-configured)
+    ConfiguredDelegate,
     FarmManager,
+    EpochManager,
+    FeeCollector,
     Stranger,
     ContractAccount,
 }
 
-const ROLES: [Who; 9] = [Who::Owner, Who::Pending, Who::Former, Who::FarmOwner, Who::PositionOwner, Who::PoolManager, Who::FarmManager, Who::Stranger, Who::ContractAccount];
+const ROLES: [Who; 13] = [Who::Owner, Who::Pending, Who::OldPending, Who::Former, Who::FarmOwner, Who::PositionOwner, Who::PoolManager, Who::ConfiguredDelegate, Who::FarmManager, Who::EpochManager, Who::FeeCollector, Who::Stranger, Who::ContractAccount];
 
 #[derive(Clone, Copy, PartialEq, Eq, Debug, Hash)]
 enum OwnState {
     Initial,
     TransferPending,
+    /// proposed with an expiry that has not passed yet
+    TransferPendingUnexpired,
     TransferPendingExpired,
+    /// proposed to one account, then to another before the first accepted
+    ReProposed,
     Transferred,
+    /// transferred and transferred back
+    TransferredBack,
     Renounced,
+    /// proposed, then renounced before the proposed account accepted
+    RenouncedWhilePending,
 }
 
-const STATES: [OwnState; 5] = [OwnState::Initial, OwnState::TransferPending, OwnState::TransferPendingExpired, OwnState::Transferred, OwnState::Renounced];
+const STATES: [OwnState; 9] = [
+    OwnState::Initial,
+    OwnState::TransferPending,
+    OwnState::TransferPendingUnexpired,
+    OwnState::TransferPendingExpired,
+    OwnState::ReProposed,
+    OwnState::Transferred,
+    OwnState::TransferredBack,
+    OwnState::Renounced,
+    OwnState::RenouncedWhilePending,
+];
+
+#[derive(Clone, Copy, PartialEq, Eq, Debug, Hash)]
+pub enum PosState {
+    Open,
+    Closed,
+    ClosedUnlocked,
+}
+
+#[derive(Clone, Copy, PartialEq, Eq, Debug, Hash)]
+pub enum FarmState {
+    Running,
+    NotStarted,
+    Ended,
+    Expired,
+}
+
+#[derive(Clone, Copy, PartialEq, Eq, Debug, Hash)]
+pub enum Overlap {
+    None,
+    FarmOwnerIsPositionOwner,
+    ContractOwnerIsFarmOwner,
+    ContractOwnerIsPositionOwner,
+}
+
+/// one prepared state
+#[derive(Clone, Copy, PartialEq, Eq, Debug, Hash)]
+pub struct Prep {
+    pub pos: PosState,
+    pub farm: FarmState,
+    pub overlap: Overlap,
+    /// the farm manager's `pool_manager_addr` names an ordinary account; the LP token of the
+    /// farm and the position is one created by that account
+    pub delegate_reconfigured: bool,
+    pub cfgv: u8,
+}
+
+pub fn all_preps() -> Vec<Prep> {
+    let mut v = vec![];
+    for cfgv in 0..3u8 {
+        for delegate_reconfigured in [false, true] {
+            for overlap in [Overlap::None, Overlap::FarmOwnerIsPositionOwner, Overlap::ContractOwnerIsFarmOwner, Overlap::ContractOwnerIsPositionOwner] {
+                for farm in [FarmState::Running, FarmState::NotStarted, FarmState::Ended, FarmState::Expired] {
+                    for pos in [PosState::Open, PosState::Closed, PosState::ClosedUnlocked] {
+                        v.push(Prep { pos, farm, overlap, delegate_reconfigured, cfgv });
+                    }
+                }
+            }
+        }
+    }
+    v
+}
 
 #[derive(Clone, Copy, PartialEq, Eq, Debug, Hash)]
 enum Target {
@@ -76,6 +152,8 @@ struct Cell {
     build: Box<dyn Fn(&Ctx) -> Op>,
     /// storage key fragments that may change when the cell is accepted
     may_touch: Vec<&'static str>,
+    /// whether the message is valid at all in the prepared state (from an authorised sender)
+    valid: fn(&Prep) -> bool,
 }
 
 struct Ctx {
@@ -87,6 +165,7 @@ struct Ctx {
     fc: Addr,
     pending: Addr,
     position_owner: Addr,
+    other: Addr,
     lp: String,
     farm_id: String,
     position_id: String,
@@ -98,11 +177,18 @@ fn own(action: Action) -> Action {
     action
 }
 
+fn always(_: &Prep) -> bool {
+    true
+}
+
 fn cells() -> Vec<Cell> {
     let mut v: Vec<Cell> = vec![];
     macro_rules! cell {
         ($name:expr, $target:expr, $rule:expr, $needs:expr, $touch:expr, $b:expr) => {
-            v.push(Cell { name: $name.to_string(), target: $target, rule: $rule, needs: $needs, build: Box::new($b), may_touch: $touch });
+            v.push(Cell { name: $name.to_string(), target: $target, rule: $rule, needs: $needs, build: Box::new($b), may_touch: $touch, valid: always });
+        };
+        ($name:expr, $target:expr, $rule:expr, $needs:expr, $touch:expr, $valid:expr, $b:expr) => {
+            v.push(Cell { name: $name.to_string(), target: $target, rule: $rule, needs: $needs, build: Box::new($b), may_touch: $touch, valid: $valid });
         };
     }
     // ---- pool manager
@@ -119,6 +205,21 @@ fn cells() -> Vec<Cell> {
     cell!("pm.UpdateConfig{pool_creation_fee}", Target::Pm, Rule::OwnerOnlyNonPayable, vec![], vec!["config"], |c: &Ctx| Op::Pm {
         sender: c.sender.clone(),
         msg: pm::ExecuteMsg::UpdateConfig { fee_collector_addr: None, farm_manager_addr: None, pool_creation_fee: Some(coin(77, "uusdc")), feature_toggle: None },
+        funds: c.funds.clone()
+    });
+    cell!("pm.UpdateConfig{all fields and all switches at once}", Target::Pm, Rule::OwnerOnlyNonPayable, vec![], vec!["config", "pools"], |c: &Ctx| Op::Pm {
+        sender: c.sender.clone(),
+        msg: pm::ExecuteMsg::UpdateConfig {
+            fee_collector_addr: Some(c.other.to_string()),
+            farm_manager_addr: Some(c.pending.to_string()),
+            pool_creation_fee: Some(coin(0, "uom")),
+            feature_toggle: Some(pm::FeatureToggle { pool_identifier: "o.a".into(), swaps_enabled: Some(false), deposits_enabled: Some(false), withdrawals_enabled: Some(false) }),
+        },
+        funds: c.funds.clone()
+    });
+    cell!("pm.UpdateConfig{nothing}", Target::Pm, Rule::OwnerOnlyNonPayable, vec![], vec!["config"], |c: &Ctx| Op::Pm {
+        sender: c.sender.clone(),
+        msg: pm::ExecuteMsg::UpdateConfig { fee_collector_addr: None, farm_manager_addr: None, pool_creation_fee: None, feature_toggle: None },
         funds: c.funds.clone()
     });
     for (k, nm) in ["swaps", "deposits", "withdrawals"].iter().enumerate() {
@@ -149,6 +250,10 @@ fn cells() -> Vec<Cell> {
             }
         };
         cell!(format!("{tn}.UpdateOwnership::TransferOwnership"), t, Rule::OwnerOnlyNonPayable, vec![], vec!["ownership"], move |c: &Ctx| mk(c, own(Action::TransferOwnership { new_owner: c.position_owner.to_string(), expiry: None })));
+        cell!(format!("{tn}.UpdateOwnership::TransferOwnership{{to the sender itself, with expiry}}"), t, Rule::OwnerOnlyNonPayable, vec![], vec!["ownership"], move |c: &Ctx| mk(
+            c,
+            own(Action::TransferOwnership { new_owner: c.sender.to_string(), expiry: Some(Expiration::AtTime(cosmwasm_std::Timestamp::from_seconds(c.now + 1_000))) })
+        ));
         cell!(format!("{tn}.UpdateOwnership::AcceptOwnership"), t, Rule::AcceptOwnership, vec![], vec!["ownership"], move |c: &Ctx| mk(c, own(Action::AcceptOwnership)));
         cell!(format!("{tn}.UpdateOwnership::RenounceOwnership"), t, Rule::OwnerOnlyNonPayable, vec![], vec!["ownership"], move |c: &Ctx| mk(c, own(Action::RenounceOwnership)));
     }
@@ -164,6 +269,13 @@ fn cells() -> Vec<Cell> {
         ("max_unlocking_duration", Box::new(|_, p| p.max_unlocking_duration = Some(30_000_000))),
         ("farm_expiration_time", Box::new(|_, p| p.farm_expiration_time = Some(3_000_000))),
         ("emergency_unlock_penalty", Box::new(|_, p| p.emergency_unlock_penalty = Some(Decimal::percent(7)))),
+        ("several fields at once", Box::new(|c, p| {
+            p.fee_collector_addr = Some(c.other.to_string());
+            p.create_farm_fee = Some(coin(0, "uom"));
+            p.max_concurrent_farms = Some(9);
+            p.emergency_unlock_penalty = Some(Decimal::percent(1));
+        })),
+        ("nothing", Box::new(|_, _| {})),
     ];
     for (nm, f) in fm_fields {
         cell!(format!("fm.UpdateConfig{{{nm}}}"), Target::Fm, Rule::OwnerOnlyNonPayable, vec![], vec!["config"], move |c: &Ctx| {
@@ -180,14 +292,23 @@ fn cells() -> Vec<Cell> {
         msg: em::ExecuteMsg::UpdateConfig { epoch_config: Some(em::EpochConfig { duration: Uint64::new(90_000), genesis_epoch: Uint64::new(c.now + 10) }) },
         funds: c.funds.clone()
     });
+    cell!("em.UpdateConfig{nothing}", Target::Em, Rule::OwnerOnlyNonPayable, vec![], vec!["config"], |c: &Ctx| Op::Em { sender: c.sender.clone(), msg: em::ExecuteMsg::UpdateConfig { epoch_config: None }, funds: c.funds.clone() });
     // ---- farms and positions
-    cell!("fm.ManageFarm::Expand", Target::Fm, Rule::FarmOwnerOnly, vec![coin(2_000, "uusdc")], vec!["farms"], |c: &Ctx| {
-        let mut f = c.funds.clone();
-        f.retain(|x| x.denom != "uusdc");
-        f.push(coin(2_000, "uusdc"));
-        f.sort_by(|a, b| a.denom.cmp(&b.denom));
-        farm_op(&c.sender, FarmAction::Expand { params: FarmParams { lp_denom: c.lp.clone(), start_epoch: None, preliminary_end_epoch: None, curve: None, farm_asset: coin(2_000, "uusdc"), farm_identifier: Some(c.farm_id.clone()) } }, f)
-    });
+    cell!(
+        "fm.ManageFarm::Expand",
+        Target::Fm,
+        Rule::FarmOwnerOnly,
+        vec![coin(2_000, "uusdc")],
+        vec!["farms"],
+        |p: &Prep| matches!(p.farm, FarmState::Running | FarmState::NotStarted),
+        |c: &Ctx| {
+            let mut f = c.funds.clone();
+            f.retain(|x| x.denom != "uusdc");
+            f.push(coin(2_000, "uusdc"));
+            f.sort_by(|a, b| a.denom.cmp(&b.denom));
+            farm_op(&c.sender, FarmAction::Expand { params: FarmParams { lp_denom: c.lp.clone(), start_epoch: None, preliminary_end_epoch: None, curve: None, farm_asset: coin(2_000, "uusdc"), farm_identifier: Some(c.farm_id.clone()) } }, f)
+        }
+    );
     cell!("fm.ManageFarm::Close", Target::Fm, Rule::FarmOwnerOrContractOwner, vec![], vec!["farms"], |c: &Ctx| farm_op(&c.sender, FarmAction::Close { farm_identifier: c.farm_id.clone() }, c.funds.clone()));
     cell!("fm.ManagePosition::Create{receiver: another account}", Target::Fm, Rule::PoolManagerOrReceiver, vec![coin(50, "LP")], vec!["positions", "lp_weight_history", "position_id_counter"], |c: &Ctx| {
         let mut f = c.funds.clone();
@@ -195,53 +316,169 @@ fn cells() -> Vec<Cell> {
         f.sort_by(|a, b| a.denom.cmp(&b.denom));
         pos_op(&c.sender, PositionAction::Create { identifier: None, unlocking_duration: 86_400, receiver: Some(c.position_owner.to_string()) }, f)
     });
-    cell!("fm.ManagePosition::Expand", Target::Fm, Rule::PositionOwnerOrPoolManager, vec![coin(50, "LP")], vec!["positions", "lp_weight_history"], |c: &Ctx| {
+    cell!("fm.ManagePosition::Create{receiver: another account, explicit identifier}", Target::Fm, Rule::PoolManagerOrReceiver, vec![coin(50, "LP")], vec!["positions", "lp_weight_history"], |c: &Ctx| {
+        let mut f = c.funds.clone();
+        f.push(coin(50, c.lp.clone()));
+        f.sort_by(|a, b| a.denom.cmp(&b.denom));
+        pos_op(&c.sender, PositionAction::Create { identifier: Some("q".into()), unlocking_duration: 200_000, receiver: Some(c.position_owner.to_string()) }, f)
+    });
+    cell!("fm.ManagePosition::Expand", Target::Fm, Rule::PositionOwnerOrPoolManager, vec![coin(50, "LP")], vec!["positions", "lp_weight_history"], |p: &Prep| p.pos == PosState::Open, |c: &Ctx| {
         let mut f = c.funds.clone();
         f.push(coin(50, c.lp.clone()));
         f.sort_by(|a, b| a.denom.cmp(&b.denom));
         pos_op(&c.sender, PositionAction::Expand { identifier: c.position_id.clone() }, f)
     });
-    cell!("fm.ManagePosition::Close", Target::Fm, Rule::PositionOwnerOnly, vec![], vec!["positions", "lp_weight_history", "last_claimed_epoch", "position_id_counter"], |c: &Ctx| pos_op(&c.sender, PositionAction::Close { identifier: c.position_id.clone(), lp_asset: None }, c.funds.clone()));
-    cell!("fm.ManagePosition::Withdraw", Target::Fm, Rule::PositionOwnerOnly, vec![], vec!["positions", "lp_weight_history", "last_claimed_epoch"], |c: &Ctx| pos_op(&c.sender, PositionAction::Withdraw { identifier: c.position_id.clone(), emergency_unlock: Some(true) }, c.funds.clone()));
-    let _ = reward_unused;
+    cell!(
+        "fm.ManagePosition::Close",
+        Target::Fm,
+        Rule::PositionOwnerOnly,
+        vec![],
+        vec!["positions", "lp_weight_history", "last_claimed_epoch", "position_id_counter"],
+        |p: &Prep| p.pos == PosState::Open,
+        |c: &Ctx| pos_op(&c.sender, PositionAction::Close { identifier: c.position_id.clone(), lp_asset: None }, c.funds.clone())
+    );
+    cell!(
+        "fm.ManagePosition::Close{part of it}",
+        Target::Fm,
+        Rule::PositionOwnerOnly,
+        vec![],
+        vec!["positions", "lp_weight_history", "last_claimed_epoch", "position_id_counter"],
+        |p: &Prep| p.pos == PosState::Open,
+        |c: &Ctx| pos_op(&c.sender, PositionAction::Close { identifier: c.position_id.clone(), lp_asset: Some(coin(1_000, c.lp.clone())) }, c.funds.clone())
+    );
+    cell!("fm.ManagePosition::Withdraw{emergency}", Target::Fm, Rule::PositionOwnerOnly, vec![], vec!["positions", "lp_weight_history", "last_claimed_epoch"], |c: &Ctx| pos_op(&c.sender, PositionAction::Withdraw { identifier: c.position_id.clone(), emergency_unlock: Some(true) }, c.funds.clone()));
+    cell!(
+        "fm.ManagePosition::Withdraw{emergency_unlock: None}",
+        Target::Fm,
+        Rule::PositionOwnerOnly,
+        vec![],
+        vec!["positions", "lp_weight_history", "last_claimed_epoch"],
+        |p: &Prep| p.pos == PosState::ClosedUnlocked,
+        |c: &Ctx| pos_op(&c.sender, PositionAction::Withdraw { identifier: c.position_id.clone(), emergency_unlock: None }, c.funds.clone())
+    );
+    cell!(
+        "fm.ManagePosition::Withdraw{emergency_unlock: Some(false)}",
+        Target::Fm,
+        Rule::PositionOwnerOnly,
+        vec![],
+        vec!["positions", "lp_weight_history", "last_claimed_epoch"],
+        |p: &Prep| p.pos == PosState::ClosedUnlocked,
+        |c: &Ctx| pos_op(&c.sender, PositionAction::Withdraw { identifier: c.position_id.clone(), emergency_unlock: Some(false) }, c.funds.clone())
+    );
     v
 }
 
-#[allow(non_upper_case_globals)]
-const reward_unused: () = ();
+/// the ownership situation of all four contracts
+struct Sit {
+    owner: Option<Addr>,
+    pending: Option<Addr>,
+    pending_can_accept: bool,
+    old_pending: Option<Addr>,
+    former: Option<Addr>,
+}
 
-pub fn run_matrix(cfg: &RunCfg) -> Reporter {
+/// runs the whole matrix on forks of one prepared state
+pub fn run_prep(cfg: &RunCfg, idx: usize, prep: Prep) -> Reporter {
     let mut rep = Reporter::new("C15");
-    set_ctx(format!("workload=W-admin (complete matrix) seed={}", cfg.seed));
-    let mut w = World::new(WorldCfg::default());
+    set_ctx(format!("workload=W-admin (complete matrix) seed={} prepared_state={idx} {prep:?}", cfg.seed));
+    let mut wcfg = WorldCfg::default();
+    wcfg.n_users = 7;
+    match prep.cfgv {
+        1 => {
+            wcfg.farm_fee = coin(0, "uom");
+            wcfg.pool_creation_fee = coin(0, "uom");
+            wcfg.subsec_nanos = 999_999_999;
+        }
+        2 => {
+            wcfg.farm_fee = coin(500, "uusdt");
+            wcfg.emergency_unlock_penalty = Decimal::percent(50);
+            wcfg.max_concurrent_farms = 5;
+            wcfg.tf_fees = vec![coin(300, "uusdt")];
+            wcfg.subsec_nanos = 1;
+        }
+        _ => {}
+    }
+    let mut w = World::new(wcfg);
     let o = w.owner.clone();
     let pending = w.users[0].clone();
-    let farm_owner = w.users[1].clone();
-    let position_owner = w.users[2].clone();
     let stranger = w.users[3].clone();
-    // prepared state: a pool, LP everywhere, a running farm, an open position
+    let delegate = w.users[4].clone();
+    let other = w.users[5].clone();
+    let farm_owner = match prep.overlap {
+        Overlap::ContractOwnerIsFarmOwner => o.clone(),
+        _ => w.users[1].clone(),
+    };
+    let position_owner = match prep.overlap {
+        Overlap::FarmOwnerIsPositionOwner => farm_owner.clone(),
+        Overlap::ContractOwnerIsPositionOwner => o.clone(),
+        _ => w.users[2].clone(),
+    };
+    // prepared state: a pool, LP everywhere, a farm, a position
     let op = create_pool_op(&w, &stranger, &["uom", "uusdc"], PoolType::ConstantProduct, pool_fee(5, 20, 0, &[]), Some("a"));
-    assert!(w.apply(&op).is_ok());
-    let lp = w.lp_denom("o.a");
-    for u in [o.clone(), pending.clone(), farm_owner.clone(), position_owner.clone(), stranger.clone(), w.hostile.clone()] {
-        assert!(w.apply(&provide_op(&u, "o.a", vec![coin(5_000_000_000, "uom"), coin(1_000_000_000, "uusdc")], None, None, None, None, None)).is_ok());
+    assert!(w.apply(&op).is_ok(), "pool creation");
+    let real_lp = w.lp_denom("o.a");
+    let everybody = [o.clone(), pending.clone(), w.users[1].clone(), w.users[2].clone(), stranger.clone(), delegate.clone(), other.clone(), w.hostile.clone()];
+    for u in &everybody {
+        assert!(w.apply(&provide_op(u, "o.a", vec![coin(5_000_000_000, "uom"), coin(1_000_000_000, "uusdc")], None, None, None, None, None)).is_ok(), "provide");
     }
+    let lp = if prep.delegate_reconfigured {
+        // an ordinary account becomes the farm manager's pool manager; LP tokens are the ones
+        // that account created
+        assert!(w.apply(&fm_config_op(&o, |p| p.pool_manager_addr = Some(delegate.to_string()))).is_ok(), "re-configuring the delegate");
+        let lp2 = format!("factory/{delegate}/o.z.LP");
+        for u in &everybody {
+            w.mint_to(u, coin(1_000_000_000, lp2.clone()));
+        }
+        lp2
+    } else {
+        real_lp.clone()
+    };
     // the contracts' own accounts act as senders too: give them something to attach
-    for a in [w.pm.clone(), w.fm.clone()] {
-        for c in [coin(1_000_000, "uom"), coin(1_000_000, "uusdc"), coin(1_000_000, lp.clone())] {
-            if c.denom == lp {
-                assert!(w.bank_send(&stranger, &a, &[coin(1_000, lp.clone())]).is_ok());
-            } else {
-                w.mint_to(&a, c);
-            }
+    for a in [w.pm.clone(), w.fm.clone(), w.em.clone(), w.fc.clone()] {
+        w.mint_to(&a, coin(1_000_000, "uom"));
+        w.mint_to(&a, coin(1_000_000, "uusdc"));
+        if prep.delegate_reconfigured {
+            w.mint_to(&a, coin(1_000, lp.clone()));
+        } else {
+            assert!(w.bank_send(&stranger, &a, &[coin(1_000, lp.clone())]).is_ok());
         }
     }
     let reward = coin(20_000, "uusdc");
-    assert!(w.apply(&farm_op(&farm_owner, FarmAction::Create { params: FarmParams { lp_denom: lp.clone(), start_epoch: Some(1), preliminary_end_epoch: Some(11), curve: None, farm_asset: reward.clone(), farm_identifier: Some("f".into()) } }, farm_funds(&reward, &w.cfg.farm_fee))).is_ok());
-    assert!(w.apply(&pos_op(&position_owner, PositionAction::Create { identifier: Some("p".into()), unlocking_duration: 86_400, receiver: None }, vec![coin(10_000, lp.clone())])).is_ok());
-    w.advance(2 * 86_400);
+    let cur = crate::wfarm::fobserve(&w).epoch.unwrap_or(0);
+    let (start, end) = match prep.farm {
+        FarmState::Running => (cur + 1, cur + 11),
+        FarmState::NotStarted => (cur + 12, cur + 22),
+        FarmState::Ended | FarmState::Expired => (cur + 1, cur + 3),
+    };
+    let fee = w.cfg.farm_fee.clone();
+    assert!(w.apply(&farm_op(&farm_owner, FarmAction::Create { params: FarmParams { lp_denom: lp.clone(), start_epoch: Some(start), preliminary_end_epoch: Some(end), curve: None, farm_asset: reward.clone(), farm_identifier: Some("f".into()) } }, farm_funds(&reward, &fee))).is_ok(), "farm creation");
+    assert!(w.apply(&pos_op(&position_owner, PositionAction::Create { identifier: Some("p".into()), unlocking_duration: 86_400, receiver: None }, vec![coin(10_000, lp.clone())])).is_ok(), "position creation");
+    let day = w.cfg.epoch_duration;
+    match prep.farm {
+        FarmState::Running | FarmState::NotStarted => w.advance(2 * day),
+        FarmState::Ended => w.advance(5 * day),
+        FarmState::Expired => w.advance(5 * day + w.cfg.farm_expiration_time + 10),
+    }
     // closing a position requires its rewards to be claimed first; not part of the matrix
-    assert!(w.apply(&crate::wfarm::claim_op(&position_owner, None)).is_ok());
+    let _ = w.apply(&crate::wfarm::claim_op(&position_owner, None));
+    if prep.pos != PosState::Open {
+        assert!(w.apply(&pos_op(&position_owner, PositionAction::Close { identifier: "u-p".into(), lp_asset: None }, vec![])).is_ok(), "closing the position");
+        if prep.pos == PosState::ClosedUnlocked {
+            w.advance(86_401);
+        }
+    }
+    // the farm is in the state the prepared state names
+    {
+        let f = crate::wfarm::fobserve(&w);
+        let e = f.epoch.unwrap_or(0);
+        let fr = f.farms.get("m-f").expect("farm recorded");
+        let ok = match prep.farm {
+            FarmState::Running => fr.start_epoch <= e && e < fr.preliminary_end_epoch,
+            FarmState::NotStarted => e < fr.start_epoch,
+            FarmState::Ended | FarmState::Expired => e >= fr.preliminary_end_epoch,
+        };
+        assert!(ok, "farm state {:?} not reached (epoch {e}, farm {}..{})", prep.farm, fr.start_epoch, fr.preliminary_end_epoch);
+    }
     let prepared = w.snapshot();
     let all = cells();
     let contracts = [(Target::Pm, w.pm.clone()), (Target::Fm, w.fm.clone()), (Target::Em, w.em.clone()), (Target::Fc, w.fc.clone())];
@@ -260,19 +497,35 @@ pub fn run_matrix(cfg: &RunCfg) -> Reporter {
             w.apply(&op).is_ok()
         };
         let now_s = w.now();
+        let propose = |to: &Addr| Action::TransferOwnership { new_owner: to.to_string(), expiry: None };
         for (t, _) in &contracts {
             match st {
                 OwnState::Initial => {}
-                OwnState::TransferPending => ok &= exec_own(&mut w, *t, &o, Action::TransferOwnership { new_owner: pending.to_string(), expiry: None }),
+                OwnState::TransferPending => ok &= exec_own(&mut w, *t, &o, propose(&pending)),
+                OwnState::TransferPendingUnexpired => ok &= exec_own(&mut w, *t, &o, Action::TransferOwnership { new_owner: pending.to_string(), expiry: Some(Expiration::AtTime(cosmwasm_std::Timestamp::from_seconds(now_s + 100_000))) }),
                 OwnState::TransferPendingExpired => ok &= exec_own(&mut w, *t, &o, Action::TransferOwnership { new_owner: pending.to_string(), expiry: Some(Expiration::AtTime(cosmwasm_std::Timestamp::from_seconds(now_s + 100))) }),
+                OwnState::ReProposed => {
+                    ok &= exec_own(&mut w, *t, &o, propose(&pending));
+                    ok &= exec_own(&mut w, *t, &o, propose(&other));
+                }
                 OwnState::Transferred => {
-                    ok &= exec_own(&mut w, *t, &o, Action::TransferOwnership { new_owner: pending.to_string(), expiry: None });
+                    ok &= exec_own(&mut w, *t, &o, propose(&pending));
                     ok &= exec_own(&mut w, *t, &pending, Action::AcceptOwnership);
                 }
+                OwnState::TransferredBack => {
+                    ok &= exec_own(&mut w, *t, &o, propose(&pending));
+                    ok &= exec_own(&mut w, *t, &pending, Action::AcceptOwnership);
+                    ok &= exec_own(&mut w, *t, &pending, propose(&o));
+                    ok &= exec_own(&mut w, *t, &o, Action::AcceptOwnership);
+                }
                 OwnState::Renounced => ok &= exec_own(&mut w, *t, &o, Action::RenounceOwnership),
+                OwnState::RenouncedWhilePending => {
+                    ok &= exec_own(&mut w, *t, &o, propose(&pending));
+                    ok &= exec_own(&mut w, *t, &o, Action::RenounceOwnership);
+                }
             }
         }
-        if st == OwnState::TransferPendingExpired {
+        if matches!(st, OwnState::TransferPendingExpired | OwnState::TransferPendingUnexpired) {
             w.advance(200);
         }
         if !ok {
@@ -281,32 +534,51 @@ pub fn run_matrix(cfg: &RunCfg) -> Reporter {
         }
         rep.held("ownership_flow", hash_of(&st), || json!({"state_reached": format!("{st:?}")}));
         let state: Snap = w.snapshot();
-        let (cur_owner, pending_now, former): (Option<Addr>, Option<Addr>, Option<Addr>) = match st {
-            OwnState::Initial => (Some(o.clone()), None, None),
-            OwnState::TransferPending | OwnState::TransferPendingExpired => (Some(o.clone()), Some(pending.clone()), None),
-            OwnState::Transferred => (Some(pending.clone()), None, Some(o.clone())),
-            OwnState::Renounced => (None, None, Some(o.clone())),
+        let sit = match st {
+            OwnState::Initial => Sit { owner: Some(o.clone()), pending: None, pending_can_accept: false, old_pending: None, former: None },
+            OwnState::TransferPending | OwnState::TransferPendingUnexpired => Sit { owner: Some(o.clone()), pending: Some(pending.clone()), pending_can_accept: true, old_pending: None, former: None },
+            OwnState::TransferPendingExpired => Sit { owner: Some(o.clone()), pending: Some(pending.clone()), pending_can_accept: false, old_pending: None, former: None },
+            OwnState::ReProposed => Sit { owner: Some(o.clone()), pending: Some(other.clone()), pending_can_accept: true, old_pending: Some(pending.clone()), former: None },
+            OwnState::Transferred => Sit { owner: Some(pending.clone()), pending: None, pending_can_accept: false, old_pending: None, former: Some(o.clone()) },
+            OwnState::TransferredBack => Sit { owner: Some(o.clone()), pending: None, pending_can_accept: false, old_pending: None, former: Some(pending.clone()) },
+            OwnState::Renounced => Sit { owner: None, pending: None, pending_can_accept: false, old_pending: None, former: Some(o.clone()) },
+            OwnState::RenouncedWhilePending => Sit { owner: None, pending: None, pending_can_accept: false, old_pending: Some(pending.clone()), former: Some(o.clone()) },
         };
+        // the delegate the farm manager's configuration names
+        let configured_delegate = if prep.delegate_reconfigured { delegate.clone() } else { w.pm.clone() };
         for cell in &all {
+            let valid = (cell.valid)(&prep);
             for who in ROLES {
                 // resolve the role to an account in this state
                 let sender: Addr = match who {
-                    Who::Owner => match &cur_owner {
+                    Who::Owner => match &sit.owner {
                         Some(a) => a.clone(),
                         None => continue,
                     },
-                    Who::Pending => match &pending_now {
+                    Who::Pending => match &sit.pending {
                         Some(a) => a.clone(),
                         None => continue,
                     },
-                    Who::Former => match &former {
+                    Who::OldPending => match &sit.old_pending {
+                        Some(a) => a.clone(),
+                        None => continue,
+                    },
+                    Who::Former => match &sit.former {
                         Some(a) => a.clone(),
                         None => continue,
                     },
                     Who::FarmOwner => farm_owner.clone(),
                     Who::PositionOwner => position_owner.clone(),
                     Who::PoolManager => w.pm.clone(),
+                    Who::ConfiguredDelegate => {
+                        if !prep.delegate_reconfigured {
+                            continue;
+                        }
+                        delegate.clone()
+                    }
                     Who::FarmManager => w.fm.clone(),
+                    Who::EpochManager => w.em.clone(),
+                    Who::FeeCollector => w.fc.clone(),
                     Who::Stranger => stranger.clone(),
                     Who::ContractAccount => w.hostile.clone(),
                 };
@@ -321,6 +593,7 @@ pub fn run_matrix(cfg: &RunCfg) -> Reporter {
                         fc: w.fc.clone(),
                         pending: pending.clone(),
                         position_owner: position_owner.clone(),
+                        other: other.clone(),
                         lp: lp.clone(),
                         farm_id: "m-f".into(),
                         position_id: "u-p".into(),
@@ -329,25 +602,29 @@ pub fn run_matrix(cfg: &RunCfg) -> Reporter {
                     };
                     let op = (cell.build)(&ctx);
                     let out = w.apply(&op);
-                    let is_owner = cur_owner.as_ref() == Some(&sender);
-                    let allowed = match cell.rule {
-                        Rule::OwnerOnlyNonPayable => is_owner && !with_funds,
-                        Rule::AcceptOwnership => st == OwnState::TransferPending && pending_now.as_ref() == Some(&sender) && !with_funds,
-                        Rule::FarmOwnerOnly => sender == farm_owner && !with_funds,
-                        Rule::FarmOwnerOrContractOwner => (sender == farm_owner || is_owner) && !with_funds,
-                        Rule::PoolManagerOrReceiver => (sender == w.pm || sender == position_owner) && !with_funds,
-                        Rule::PositionOwnerOrPoolManager => (sender == position_owner || sender == w.pm) && !with_funds,
-                        Rule::PositionOwnerOnly => sender == position_owner && !with_funds,
+                    let is_owner = sit.owner.as_ref() == Some(&sender);
+                    let authorised = match cell.rule {
+                        Rule::OwnerOnlyNonPayable => is_owner,
+                        Rule::AcceptOwnership => sit.pending_can_accept && sit.pending.as_ref() == Some(&sender),
+                        Rule::FarmOwnerOnly => sender == farm_owner,
+                        Rule::FarmOwnerOrContractOwner => sender == farm_owner || is_owner,
+                        Rule::PoolManagerOrReceiver => sender == configured_delegate || sender == position_owner,
+                        Rule::PositionOwnerOrPoolManager => sender == position_owner || sender == configured_delegate,
+                        Rule::PositionOwnerOnly => sender == position_owner,
                     };
-                    let label = json!({"contract": format!("{:?}", cell.target), "message": cell.name, "sender_role": format!("{who:?}"), "ownership_state": format!("{st:?}"), "funds_attached": with_funds, "expected": if allowed {"accepted"} else {"rejected"}, "result": out.short()});
-                    let abs = hash_of(&(&cell.name, who, st, with_funds));
+                    let allowed = authorised && !with_funds && valid;
+                    let label = json!({"prepared_state": format!("{prep:?}"), "contract": format!("{:?}", cell.target), "message": cell.name, "sender_role": format!("{who:?}"), "ownership_state": format!("{st:?}"), "funds_attached": with_funds, "authorised": authorised, "valid_in_this_state": valid, "expected": if allowed {"accepted"} else {"rejected"}, "result": out.short()});
+                    let abs = hash_of(&(&cell.name, who, st, with_funds, prep));
                     if out.is_ok() != allowed {
-                        rep.failed("matrix", None, format!("{} from {who:?} in state {st:?} (funds: {with_funds}): accepted={} expected={allowed}", cell.name, out.is_ok()), witness(label));
+                        rep.failed("matrix", None, format!("{} from {who:?} in state {st:?} (funds: {with_funds}; {prep:?}): accepted={} expected={allowed}", cell.name, out.is_ok()), witness(label));
                         continue;
                     }
                     if !out.is_ok() {
                         if *w.state() == state.storage {
                             rep.held("matrix", abs, || label.clone());
+                            if !authorised {
+                                rep.held("unauthorised_rejected", abs, || label.clone());
+                            }
                         } else {
                             rep.failed("rejected_is_noop", None, format!("rejected {} from {who:?} changed the state", cell.name), witness(label));
                         }
@@ -370,6 +647,7 @@ pub fn run_matrix(cfg: &RunCfg) -> Reporter {
                             }
                         }
                     }
+                    rep.count("matrix", &format!("accepted: {} from {who:?}", cell.name));
                     if foreign.is_empty() {
                         rep.held("matrix", abs, || label.clone());
                         rep.held("accepted_changes_only_named_state", abs, || label.clone());
@@ -381,5 +659,23 @@ pub fn run_matrix(cfg: &RunCfg) -> Reporter {
         }
     }
     let _ = (all_farms as fn(&World) -> _, all_positions as fn(&World) -> _);
+    rep
+}
+
+/// quick: the original prepared state plus a seed-dependent covering sample; thorough: all of them
+pub fn run_matrix(cfg: &RunCfg) -> Reporter {
+    let all = all_preps();
+    let picked: Vec<(usize, Prep)> = if cfg.thorough() {
+        all.iter().copied().enumerate().collect()
+    } else {
+        let stride = 11usize; // co-prime to every dimension size, so all values of all dimensions appear
+        let off = (cfg.seed as usize) % stride;
+        all.iter().copied().enumerate().filter(|(i, _)| *i == 0 || i % stride == off).collect()
+    };
+    let n = picked.len();
+    let mut rep = crate::run_shards(cfg, n, |s| run_prep(cfg, picked[s].0, picked[s].1));
+    for (i, p) in &picked {
+        rep.count("matrix", &format!("prepared state {i}: {p:?}"));
+    }
     rep
 }
